@@ -198,6 +198,8 @@ def configs(tier, seed):
         for key, compress, overwrite, prior in itertools.product((None, 'stats'), (False, True), (True, False), ('absent', 'other', 'same')):
             cfgs.append(dict(kind='npz', name='npz F%d key=%s compress=%s overwrite=%s prior=%s' % (F, key, compress, overwrite, prior), F=F, key=key,
                              compress=compress, overwrite=overwrite, prior=prior))
+    for F, k in (((1, 1), (1, 2), (2, 2)) if tier == 'quick' else ((1, 1), (1, 2), (2, 2), (1, 3), (3, 2))):
+        cfgs.append(dict(kind='fp', name='IEEE float64 accumulate->raw->reload F%d k%d' % (F, k), F=F, k=k))
     cfgs.append(dict(kind='nostats', name='save without statistics'))
     cfgs.append(dict(kind='polarity', name='npz overwrite flag decides'))
     return cfgs
@@ -355,7 +357,109 @@ def run_polarity(cfg):
                 notes=['overwrite=True keeps other entries: %s; overwrite=False keeps them: %s (docstring states the opposite polarity; the property only requires that the flag decides)' % (kept[True], kept[False])])
 
 
+class Rejected(Exception):
+    pass
+
+
+def run_fp(cfg):
+    """IEEE-754 configuration: k float64 feature vectors with symbolic finite entries are accumulated by the real
+    accumulate(), saved to a raw file and reloaded; z3 (QF_FP, one-shot solver per branch) decides that the sanity
+    heuristic of _sanitize_stats accepts the correctly read float64 statistics, i.e. never reinterprets them."""
+    from checks import fparr
+
+    class FPNP(FNP):
+        @staticmethod
+        def zeros(shape, dtype=None):
+            if dtype is not None and np.dtype(dtype) != np.dtype('f8'):
+                raise symex.Unsupported('FP mode supports float64 only')
+            r = np.empty(shape, dtype=object)
+            r[...] = 0
+            r = r.view(fparr.FSym)
+            r._ld = np.dtype('f8')
+            return r
+
+        @staticmethod
+        def frombuffer(buf, dtype=float):
+            raise Rejected('statistics reinterpreted as %s' % np.dtype(dtype))
+
+        @staticmethod
+        def round(v):
+            if isinstance(v, z3.ExprRef):
+                raise symex.Unsupported('FP mode: round of a symbolic value')
+            return np.round(v)
+
+        @staticmethod
+        def isclose(a, b, **kw):
+            if isinstance(a, z3.ExprRef) or isinstance(b, z3.ExprRef):
+                raise symex.Unsupported('FP mode: isclose of a symbolic value')
+            return np.isclose(a, b, **kw)
+
+    npx = FPNP()
+    util = loader.load_unit('util', dict(np=npx), name='pydrobert.speech.util')
+    post = loader.load_unit('post', dict(np=npx, read_signal=util['read_signal']), name='post_under_test')
+    S = post['Standardize']
+    F, k = cfg['F'], cfg['k']
+    viol = []
+    ob = dis = 0
+    allvars = []
+
+    def body():
+        c = Ctx.cur
+        FS.files = {}
+        st = S()
+        del allvars[:]
+        for i in range(k):
+            vec, vs, asm = fparr.fsym(F, 'v%d' % i, hi=1e6)
+            allvars.append(vs)
+            c.assume(*asm)
+            st.accumulate(vec)
+        saved = st._stats.raw().copy()
+        st.save('stats.bin')
+        try:
+            st2 = S(rfilename='stats.bin', force_as='file')
+        except Rejected as e:
+            return ('rejected', str(e))
+        except Exception as e:
+            symex.guard(e)
+            return ('load raised', '%s: %s' % (type(e).__name__, e))
+        got = st2._stats.raw()
+        if got.shape != saved.shape:
+            return ('shape',)
+        for p, q in zip(got.ravel(), saved.ravel()):
+            same = p.eq(q) if isinstance(p, z3.ExprRef) and isinstance(q, z3.ExprRef) else (not isinstance(p, z3.ExprRef) and not isinstance(q, z3.ExprRef) and p == q)
+            if not same:
+                return ('differs',)
+        return ('ok',)
+
+    old = symex.FRESH_SOLVER
+    symex.FRESH_SOLVER = True
+    try:
+        for ctx, res in explore(body, max_paths=50):
+            if res is None:
+                continue
+            ob += 1
+            if res[0] == 'ok':
+                dis += 1
+                continue
+            s = z3.Solver()
+            s.set('timeout', symex.QUERY_TIMEOUT_MS)
+            s.add(*ctx.pc)
+            if check_sat(s) != 'sat':
+                ob -= 1
+                continue
+            m = s.model()
+            data = [[fparr.fp_value(m, v) for v in vs] for vs in allvars]
+            viol.append({'kind': 'fp', 'F': F, 'k': k, 'what': 'correctly read float64 statistics ' + res[0], 'detail': str(res[1:])[:200], 'data': data,
+                         'class': 'fp/%s' % res[0]})
+    finally:
+        symex.FRESH_SOLVER = old
+    return dict(obligations=ob, discharged=dis, violations=viol, twin=dis > 0,
+                samples=[{'config': cfg['name'], 'obligation': 'IEEE double: statistics accumulated from %d finite float64 vectors (|x| <= 1e6) and saved raw are accepted by _sanitize_stats and reloaded unchanged' % k}])
+
+
 def run_config(cfg):
+    if cfg['kind'] == 'fp':
+        return run_fp(cfg)
     if cfg['kind'] == 'nostats':
         return run_nostats(cfg)
     if cfg['kind'] == 'polarity':
@@ -374,6 +478,21 @@ def replay(w):
         rng = np.random.RandomState(3)
         if w['kind'] in ('nostats', 'polarity'):
             return {'reproduced': True, 'detail': w['what']}
+        if w['kind'] == 'fp':
+            st = Standardize()
+            for vec in w['data']:
+                st.accumulate(np.array(vec, dtype=np.float64))
+            path = os.path.join(work, 'stats.bin')
+            st.save(path)
+            try:
+                with warnings.catch_warnings():
+                    warnings.simplefilter('ignore')
+                    st2 = Standardize(rfilename=path, force_as='file')
+            except Exception as e:
+                return {'reproduced': True, 'detail': 'statistics accumulated from float64 vectors %s, saved raw, reload raised %s: %s' % (w['data'], type(e).__name__, e)}
+            if st2._stats.shape != st._stats.shape or not np.array_equal(st2._stats, st._stats):
+                return {'reproduced': True, 'detail': 'statistics accumulated from float64 vectors %s reload differently' % (w['data'],)}
+            return {'reproduced': False, 'detail': 'round trip fine'}
         F = w['F']
         st = Standardize()
         data = rng.randn(7, F) * 2
